@@ -15,6 +15,12 @@ def plans(tier):
             dict(fmt="fb", eps=3, letters=A(opseq.KINDS_Q), depth=2),
             dict(fmt="npz", eps=2, letters=A(opseq.KINDS_T), depth=2),
             dict(fmt="tfrec", eps=2, letters=A(opseq.KINDS_Q), depth=2),
+            dict(fmt="fb/nohash+reads", eps=2, letters=A(opseq.KINDS_Q),
+                 depth=3),
+            dict(fmt="npz/2hash+reads", eps=2, letters=A(opseq.KINDS_Q),
+                 depth=2),
+            dict(fmt="tfrec/nohash+reads", eps=1, letters=A(opseq.KINDS_Q),
+                 depth=2),
         ]
     return [
         dict(fmt="fb", eps=2, letters=A(opseq.KINDS_Q), depth=3),
@@ -30,6 +36,13 @@ def plans(tier):
              depth=2),
         dict(fmt="npz", eps=1, letters=A(("rej", "multi"),
                                          ("train", "mix")), depth=2),
+        # no checksum algorithms / two of them; the dataset is opened,
+        # checked and iterated in the writing process after every session
+        dict(fmt="fb/nohash+reads", eps=2,
+             letters=A(("root", "x", "x/y", "multi"), ("train", "mix")),
+             depth=3),
+        dict(fmt="npz/2hash+reads", eps=2,
+             letters=A(("root", "x", "multi"), ("mix",)), depth=2),
     ]
 
 
